@@ -93,7 +93,7 @@ fn model_valid(p: Prod, iri: bool, s: &str) -> bool {
 
 /// Writes `<dir>/valid` and `<dir>/invalid` crates plus `<dir>/expected.json`.
 pub fn generate_crates(dir: &str, thorough: bool, seed: u64, repo: &str) -> std::io::Result<()> {
-    let per_macro = if thorough { 5000 } else { 400 };
+    let per_macro = if thorough { 1500 } else { 400 };
     let mut valid: Vec<Lit> = Vec::new();
     let mut invalid: Vec<Lit> = Vec::new();
     let fixed_valid = ["s:", "http://a/b/c/d;p?q#f", "s://u:p@[::1]:80/a/./b/../c?q#f", "s:/.//a", "s:a:b", "x-y.z+1://h", "s:%41%c3%a9", "S://H/%7e"];
@@ -152,12 +152,21 @@ pub fn generate_crates(dir: &str, thorough: bool, seed: u64, repo: &str) -> std:
     for (i, l) in valid.iter().enumerate() {
         writeln!(src, "const V{}: &'static {} = iref::{}!({});", i, l.ty, l.mac, l.spelling).unwrap();
     }
-    src.push_str("\nmacro_rules! check {\n    ($id:expr, $T:ty, $parse:expr, $v:expr, $bytes:expr) => {{\n        let v: &'static $T = $v;\n        let bytes: &[u8] = $bytes;\n        if v.as_bytes() != bytes {\n            println!(\"MISMATCH {} bytes {:?}\", $id, v.as_bytes());\n        }\n        match $parse(bytes) {\n            Ok(r) => {\n                if r != v || !(r.parts() == v.parts()) || r.as_bytes() != v.as_bytes() {\n                    println!(\"MISMATCH {} runtime-differs\", $id);\n                }\n            }\n            Err(_) => println!(\"MISMATCH {} runtime-rejects\", $id),\n        }\n        println!(\"CHECKED {}\", $id);\n    }};\n}\n\nfn main() {\n");
+    src.push_str("\nmacro_rules! check {\n    ($id:expr, $T:ty, $parse:expr, $v:expr, $bytes:expr) => {{\n        let v: &'static $T = $v;\n        let bytes: &[u8] = $bytes;\n        if v.as_bytes() != bytes {\n            println!(\"MISMATCH {} bytes {:?}\", $id, v.as_bytes());\n        }\n        match $parse(bytes) {\n            Ok(r) => {\n                if r != v || !(r.parts() == v.parts()) || r.as_bytes() != v.as_bytes() {\n                    println!(\"MISMATCH {} runtime-differs\", $id);\n                }\n            }\n            Err(_) => println!(\"MISMATCH {} runtime-rejects\", $id),\n        }\n        println!(\"CHECKED {}\", $id);\n    }};\n}\n\n");
     for (i, l) in valid.iter().enumerate() {
+        if i % 100 == 0 {
+            if i > 0 { src.push_str("}\n"); }
+            writeln!(src, "fn chunk{}() {{", i / 100).unwrap();
+        }
         let bytes: Vec<String> = l.text.bytes().map(|b| b.to_string()).collect();
         let parse = if l.ty.starts_with("Iri") { format!("|b: &'static [u8]| <{}>::new(std::str::from_utf8(b).unwrap())", l.ty) } else { format!("|b: &'static [u8]| <{}>::new(b)", l.ty) };
         writeln!(src, "    check!({}, {}, {}, V{}, &[{}]);", i, l.ty, parse, i, bytes.join(",")).unwrap();
         expected.push(json!({"set": "valid", "id": i, "macro": l.mac, "text": l.text, "spelling_kind": l.kind, "spelling": l.spelling}));
+    }
+    if !valid.is_empty() { src.push_str("}\n"); }
+    src.push_str("\nfn main() {\n");
+    for k in 0..((valid.len() + 99) / 100) {
+        writeln!(src, "    chunk{}();", k).unwrap();
     }
     src.push_str("}\n");
     std::fs::write(format!("{}/src/main.rs", vdir), src)?;
